@@ -13,7 +13,12 @@ pub struct Finding {
     pub summary: String,
     pub expected: String,
     pub observed: String,
+    /// for "the expansion raises warnings" findings: the warnings (code + message); the driver drops those the
+    /// control rendering (same items without derive_more) raises as well
+    pub warnings: Vec<String>,
 }
+
+pub const WARNING_EXPECTED: &str = "no warnings attributable to the derive expansion (builds under #![deny(warnings)])";
 
 pub trait ProgProp: Sync {
     type Case: Clone + std::fmt::Debug + Serialize + DeserializeOwned + Send + Sync;
@@ -149,28 +154,74 @@ pub fn run<P: ProgProp>(p: &P, ctx: &Ctx) -> Report {
         }
         rep.evidence.add("compiled_cases", built.results.iter().filter(|r| r.compiled).count() as u64);
         rep.evidence.add("compile_failed_cases", built.results.iter().filter(|r| !r.compiled).count() as u64);
-        // failing cases: control, shrink, report
+        // a broken prelude / generator shows as (almost) everything failing: do not shrink thousands of cases
+        let failed = built.results.iter().filter(|r| !r.compiled).count();
+        let expected_fail = cases.iter().filter(|c| p.render(c).negative).count();
+        if cases.len() >= 20 && failed > expected_fail + (cases.len() - expected_fail) / 2 {
+            let first = built.results.iter().find(|r| !r.compiled).map(|r| r.error_text()).unwrap_or_default();
+            rep.infra_errors.push(format!(
+                "{failed} of {} cases fail to compile — broken prelude/generator or a tree that does not build; first error: {}",
+                cases.len(),
+                first.chars().take(1500).collect::<String>()
+            ));
+            break;
+        }
+        // generator soundness control: all failing must-compile cases at once
+        let mut generator_fault: HashSet<usize> = HashSet::new();
+        {
+            let idx: Vec<usize> = (0..cases.len()).filter(|i| !findings[*i].is_empty() && !built.results[*i].compiled).collect();
+            let ctrls: Vec<(usize, CaseSrc)> = idx.iter().filter_map(|i| p.render_control(&cases[*i]).map(|c| (*i, c))).collect();
+            if !ctrls.is_empty() {
+                let mut cspec = spec.clone();
+                cspec.name = format!("{}_ctrl", spec.name);
+                cspec.check_only = true;
+                cspec.shards = 0;
+                let srcs: Vec<CaseSrc> = ctrls.iter().map(|c| c.1.clone()).collect();
+                if let Ok(b) = build_and_run(ctx, &cspec, &srcs) {
+                    for (k, (i, _)) in ctrls.iter().enumerate() {
+                        if !b.results[k].compiled {
+                            generator_fault.insert(*i);
+                        }
+                    }
+                }
+            }
+        }
+        // warnings "of its own": subtract what the control rendering raises too
+        let mut findings = findings;
+        {
+            let idx: Vec<usize> = (0..cases.len()).filter(|i| findings[*i].iter().any(|f| !f.warnings.is_empty())).collect();
+            let ctrls: Vec<(usize, CaseSrc)> = idx.iter().filter_map(|i| p.render_control(&cases[*i]).map(|c| (*i, c))).collect();
+            if !ctrls.is_empty() {
+                let mut cspec = spec.clone();
+                cspec.name = format!("{}_ctrl", spec.name);
+                cspec.check_only = true;
+                cspec.shards = 0;
+                let srcs: Vec<CaseSrc> = ctrls.iter().map(|c| c.1.clone()).collect();
+                if let Ok(b) = build_and_run(ctx, &cspec, &srcs) {
+                    for (k, (i, _)) in ctrls.iter().enumerate() {
+                        let cw: HashSet<String> = b.results[k].warnings.iter().map(|w| format!("{}{}", w.code.as_ref().map(|c| format!("[{c}] ")).unwrap_or_default(), w.message)).collect();
+                        for f in findings[*i].iter_mut() {
+                            f.warnings.retain(|w| !cw.contains(w));
+                        }
+                        findings[*i].retain(|f| f.expected != WARNING_EXPECTED || !f.warnings.is_empty());
+                    }
+                }
+            }
+        }
+        // failing cases: shrink, report
         let mut shrink_budget = ctx.tier.pick(6usize, 20usize);
         for (i, fs) in findings.into_iter().enumerate() {
             if fs.is_empty() {
                 continue;
             }
             let case = &cases[i];
-            // generator soundness control
-            if !built.results[i].compiled {
-                if let Some(ctrl) = p.render_control(case) {
-                    let mut cspec = spec.clone();
-                    cspec.name = format!("{}_ctrl", spec.name);
-                    cspec.shards = 1;
-                    cspec.check_only = true;
-                    if let Ok(b) = build_and_run(ctx, &cspec, &[ctrl]) {
-                        if !b.results[0].compiled {
-                            generator_rejects += 1;
-                            rep.evidence.label("generator_reject");
-                            continue;
-                        }
-                    }
+            if generator_fault.contains(&i) {
+                generator_rejects += 1;
+                rep.evidence.label("generator_reject");
+                if rep.evidence.extra.get("generator_reject_example").is_none() {
+                    rep.evidence.set("generator_reject_example", json!({"program": p.canonical(case), "error": built.results[i].first_error()}));
                 }
+                continue;
             }
             let f0 = &fs[0];
             let known = f0.sig.as_ref().is_some_and(|s| ctx.is_known(s));
@@ -416,6 +467,7 @@ impl ProgProp for DiceProp {
                     summary: format!("generated program must compile but rustc rejects it: {}", r.first_error()),
                     expected: "compiles".into(),
                     observed: r.error_text(),
+                    warnings: vec![],
                 });
             } else {
                 for (what, e, o) in &r.fails {
@@ -424,6 +476,7 @@ impl ProgProp for DiceProp {
                         summary: format!("run-time oracle failed: {what}"),
                         expected: e.clone(),
                         observed: o.clone(),
+                        warnings: vec![],
                     });
                 }
                 if let Some(p) = &r.panicked {
@@ -432,6 +485,7 @@ impl ProgProp for DiceProp {
                         summary: format!("case panicked: {p}"),
                         expected: "no panic".into(),
                         observed: p.clone(),
+                        warnings: vec![],
                     });
                 }
             }
@@ -441,6 +495,7 @@ impl ProgProp for DiceProp {
                 summary: "input must be rejected with a compile error but it compiles".into(),
                 expected: "compile error".into(),
                 observed: "compiles".into(),
+                warnings: vec![],
             });
         }
         for f in out.iter_mut() {
